@@ -236,6 +236,12 @@ def build_templates(model, style=0, share_nodes=True, prefix="", dict_vars=False
             attrs["spread"] = e["s"]
         for ev, evv in (e.get("eover") or {}).items():
             attrs[f"{e['tpl']}/{ev}"] = evv            # per-edge override of an edge-operator parameter
+        if e.get("post"):
+            # further inputs of the edge operator bound to node variables by their PATH; the remaining input(s) read the source
+            eop = model["edge_ops"][e["tpl"]]
+            for ev, (vt, _) in eop["vars"].items():
+                if vt == "input":
+                    attrs[f"{prefix}et_{e['tpl']}/{e['tpl']}/{ev}"] = e["post"].get(ev, "source")
         edges.append((e["src"], e["tgt"], edge_tpls.get(e.get("tpl")), attrs))
     circuits = {lab: build_templates(sub, style, share_nodes, prefix=f"{prefix}{lab}_", dict_vars=dict_vars, node_cache=node_cache,
                                      ops_cache=ops_cache if ops_cache is not None else ops)
@@ -259,6 +265,8 @@ def flatten(model, prefix=""):
         e2["src"], e2["tgt"] = prefix + e["src"], prefix + e["tgt"]
         if e.get("tpl"):
             e2["_op"] = model["edge_ops"][e["tpl"]]
+        if e.get("post"):
+            e2["post"] = {k_: prefix + v_ for k_, v_ in e["post"].items()}
         edges.append(e2)
     for lab, sub in model.get("circuits", {}).items():
         n2, e2 = flatten(sub, prefix + lab + "/")
@@ -554,6 +562,12 @@ def to_yaml_dict(model, style=0, prefix=""):
             attrs["delay"] = e["d"]
         if e.get("s") is not None:
             attrs["spread"] = e["s"]
+        for ev, evv in (e.get("eover") or {}).items():
+            attrs[f"{e['tpl']}/{ev}"] = evv
+        if e.get("post"):
+            for ev, (vt, _) in model["edge_ops"][e["tpl"]]["vars"].items():
+                if vt == "input":
+                    attrs[f"et_{e['tpl']}/{e['tpl']}/{ev}"] = e["post"].get(ev, "source")
         edges.append([e["src"], e["tgt"], f"et_{e['tpl']}" if e.get("tpl") else None, attrs])
     top = f"{prefix}net"
     c = dict(base="CircuitTemplate", edges=edges)
